@@ -193,23 +193,68 @@ def run(idx, rep, tier):
                        "a move of an axis to the front is not undone by its inverse (moveaxis(x, 0, i)): factors beyond the second are applied along the wrong axis"),
                        detail="" if ok else "not-inverse", locs=[idx.loc(f.module, c) for a, b, c, f in moves])
     if idx.has_cls("BlockDiag"):
-        m = idx.cls("BlockDiag").methods.get("_matmat")
-        src = norm_idx(nospace(m.node))
-        loop = next((n for n in df.body_nodes(m.node) if isinstance(n, ast.For) and isinstance(n.target, ast.Tuple) and len(n.target.elts) == 2 and "multiplicities" in nospace(n.iter)), None)
-        ok = False
-        if loop is not None:
-            blk, mult = (e.id for e in loop.target.elts)
-            ok = (f"{mult}*{blk}.shape[1]" in src or f"{blk}.shape[1]*{mult}" in src) and (f"{mult}*{blk}.shape[0]" in src or f"{blk}.shape[0]*{mult}" in src)
-        rep.decide(ok, "contraction", "BlockDiag._matmat", "input blocks use the blocks' column sizes, output blocks their row sizes" if ok else "block offsets do not use columns for the input and rows for the output",
-                   detail="" if ok else "roles", locs=[idx.loc(m.module, m.node)])
+        # AXIS-TAINT: the pieces the operand is cut into are sized by the blocks' COLUMN counts, the pieces of the result by their ROW
+        # counts -- whatever arithmetic, helper or running total computes the offsets (sa/axistaint.py)
+        from sa.axistaint import AxisTaint
+        bd = idx.cls("BlockDiag")
+        m = bd.methods.get("_matmat")
+        at = AxisTaint(idx)
+        at.self_cls = bd
+        x = m.params[1]
+        at.operand = x
+        fns = [m] + [f_ for f_ in bd.methods.values() if f_ is not m and any(isinstance(c, ast.Call) and isinstance(c.func, ast.Attribute) and c.func.attr == f_.name
+                                                                           and isinstance(c.func.value, ast.Name) and c.func.value.id == "self" for c in df.calls(m.node))]
+        in_axes, out_axes = set(), set()
+        for f_ in fns:
+            for n in df.body_nodes(f_.node):
+                # slices of the operand: v[a:b]
+                if f_ is m and isinstance(n, ast.Subscript) and isinstance(n.value, ast.Name) and n.value.id == x and isinstance(n.slice, ast.Slice):
+                    for e in (n.slice.lower, n.slice.upper):
+                        if e is not None:
+                            in_axes |= set(at.flat(at.eval_in(f_, e)))
+                # reshapes: before the product they arrange the operand (column sizes), after it the result (row sizes)
+                if isinstance(n, ast.Call) and isinstance(n.func, ast.Attribute) and n.func.attr == "reshape":
+                    recv = n.func.value
+                    seen_names, after = set(), False
+                    work = [recv]
+                    while work:
+                        e = work.pop()
+                        for y in ast.walk(e):
+                            if isinstance(y, ast.BinOp) and isinstance(y.op, ast.MatMult):
+                                after = True
+                            if isinstance(y, ast.Name) and y.id not in seen_names:
+                                seen_names.add(y.id)
+                                work += [v for v, p_, st in df.assignments(f_.node).get(y.id, []) if not isinstance(v, ast.AugAssign)]
+                    axes = set()
+                    for a_ in n.args:
+                        axes |= set(at.flat(at.eval_in(f_, a_)))
+                    (out_axes if after else in_axes).update(axes)
+        ok = (in_axes == {1} and out_axes == {0}) if ("?" not in in_axes | out_axes and in_axes and out_axes) else (False if (0 in in_axes or 1 in out_axes) else None)
+        rep.decide(ok, "contraction", "BlockDiag._matmat", "input blocks use the blocks' column sizes, output blocks their row sizes" if ok else
+                   f"the operand is cut / arranged with sizes read from axes {sorted(map(str, in_axes))} of the blocks (required: columns, axis 1), the result with axes "
+                   f"{sorted(map(str, out_axes))} (required: rows, axis 0)", detail="" if ok else "roles", locs=[idx.loc(m.module, m.node)])
     drm = base.methods.get("_rmatmat")
     if drm is not None:
-        src = norm_idx(nospace(drm.node))
-        xp = drm.params[1]
-        tname = next((n for n, vals in df.assignments(drm.node).items() for v, p_, st in vals if nospace(v) == f"{xp}.T"), None)
-        ok = tname is not None and f"zeros(shape=(self.shape[1],{tname}.shape[1])" in src
-        rep.decide(ok, "generic-path", "LinearOperator._rmatmat:primals", "linear-transpose primal has the forward operand's shape (C, k)" if ok else "primal shape is not (C, k)", detail="" if ok else "shape",
-                   locs=[idx.loc(drm.module, drm.node)])
+        # the default left product transposes the linear map _matmat: the primal it is linearised at must have the shape of a forward
+        # operand, (columns of A, k) with k the number of rows of X -- judged on the value handed to linear_transpose, wherever it is built
+        from sa.scatter import Scatter, show as sshow
+        holders = [drm] + [m_ for m_ in base.methods.values() if m_ is not drm and m_.name.startswith("_") and any(
+            isinstance(c, ast.Call) and isinstance(c.func, ast.Attribute) and isinstance(c.func.value, ast.Name) and c.func.value.id == "self" and c.func.attr == m_.name for c in df.calls(drm.node))]
+        found = False
+        for h in holders:
+            for c in [c for c in df.calls(h.node) if df.is_xnp_call(c) == "linear_transpose"]:
+                found = True
+                pe = next((k.value for k in c.keywords if k.arg == "primals"), c.args[1] if len(c.args) > 1 else None)
+                xp = h.params[1] if len(h.params) > 1 else None
+                sd = Scatter(idx)
+                v = sd.eval_in(h, pe) if pe is not None else None
+                shp = v[1] if isinstance(v, tuple) and v and v[0] == "zeros" else None
+                want = ("tuple", (("dim", "self", 1), ("dim", xp, 0)))
+                ok = True if shp == want else (False if isinstance(shp, tuple) and shp and shp[0] == "tuple" and "opaque" not in repr(shp) else None)
+                rep.decide(ok, "generic-path", "LinearOperator._rmatmat:primals", "linear-transpose primal has the forward operand's shape (C, k)" if ok else
+                           f"primal is {sshow(v) if v is not None else '?'}; required zeros of shape (self.shape[1], {xp}.shape[0])", detail="" if ok else "shape", locs=[idx.loc(h.module, c)])
+        if not found:
+            rep.undecided("generic-path", "LinearOperator._rmatmat:primals", "no linear_transpose call found in the default left product")
     rep.floor("no-narrowing-store", 2)
     rep.floor("result-dtype", 15)
     rep.floor("generic-path", 7)
